@@ -108,7 +108,7 @@ func spinUntil(t time.Time) {
 	}
 }
 
-var stressModes = []string{"timer", "run-early", "run-early-ifexists", "run-at-ifexists", "run-at", "multi-run-early", "multi-run-at", "cancel-early", "cancel-at", "ctx-early", "ctx-at", "cancel-vs-run", "run-at-and-cancel-at"}
+var stressModes = []string{"timer", "run-early", "run-early-ifexists", "run-at-ifexists", "run-at", "multi-run-early", "multi-run-at", "cancel-early", "cancel-at", "ctx-early", "ctx-at", "cancel-vs-run", "run-at-and-cancel-at", "overdue-now", "overdue-past"}
 
 var forcedModes = []string{"F1-run-at-timer", "F2-run-at-timer-unclaimed", "F3-cancel-at-timer", "F4-run-and-cancel-in-run-branch", "F5-timer-during-runjob", "F7-timer-during-cancel", "F8-double-run-at-timer"}
 
@@ -155,6 +155,10 @@ func launch(s *advanced.Service, r *rand.Rand, name, mode string, wg *sync.WaitG
 		go func() { defer wg.Done(); f() }()
 	}
 	switch mode {
+	case "overdue-now":
+		sched(0) // due at the instant it is scheduled
+	case "overdue-past":
+		sched(-time.Duration(1+r.Intn(5000)) * time.Millisecond) // already overdue (scheduled late, e.g. after a slow duties fetch)
 	case "timer":
 		sched(near)
 	case "run-early":
@@ -492,6 +496,58 @@ func periodic(c *harness.Ctx, s *advanced.Service) {
 	wg.Wait()
 }
 
+// periodicCancelInsideRun: a run-now request for a periodic job is overtaken by a complete CancelJob between its table
+// lookup and its claim (forced at the hook point). The request must not report success for a job that will never run
+// again, and the cancelled job must not run again.
+func periodicCancelInsideRun(c *harness.Ctx, s *advanced.Service) {
+	n := c.N(24, 600)
+	for i := 0; i < n; i++ {
+		id := fmt.Sprintf("periodic-cancel-inside-run%d", i)
+		c.Case(id, func() {
+			r := c.Rand("pcir", i)
+			name := fmt.Sprintf("pc%d-%d", c.Batch, i)
+			js := &jobState{name: name, mode: "periodic-cancel-inside-run", exit: make(chan struct{}), forced: map[string]func(*jobState){}}
+			var once atomic.Bool
+			var cancelDone atomic.Int64 // invocation count at the moment CancelJob returned
+			var invocations atomic.Int64
+			cancelDone.Store(-1)
+			js.forced["runjob-claimed"] = func(js *jobState) {
+				if once.CompareAndSwap(false, true) {
+					doCancel(s, js)
+					cancelDone.Store(invocations.Load())
+				}
+			}
+			registry.Store(name, js)
+			defer registry.Delete(name)
+			period := time.Duration(40+r.Intn(40)) * time.Millisecond
+			err := s.SchedulePeriodicJob(context.Background(), "verif", name,
+				func(context.Context) (time.Time, error) { return time.Now().Add(period), nil },
+				func(context.Context) { invocations.Add(1) })
+			if err != nil {
+				c.Violate("periodic-schedule-rejected", err.Error(), id, nil)
+				return
+			}
+			time.Sleep(time.Duration(r.Intn(int(period))) * time.Nanosecond)
+			doRun(s, js)
+			select {
+			case <-js.exit:
+			case <-time.After(10 * time.Second):
+				c.Violate("periodic-stuck:cancel-inside-run", "the cancelled periodic job's goroutine did not stop", id, nil)
+				return
+			}
+			time.Sleep(2 * period)
+			detail := map[string]any{"run_now_reported_success": js.runNil.Load() > 0, "run_now_errors": js.runErr, "cancel_reported_success": js.cancelNil.Load() > 0, "invocations_when_cancel_returned": cancelDone.Load(), "invocations_in_the_end": invocations.Load()}
+			if js.cancelNil.Load() > 0 && invocations.Load() > cancelDone.Load() {
+				c.Violate("ran-after-cancel:periodic-cancel-inside-run", "a periodic job ran again after CancelJob had returned success", id, detail)
+			} else if js.cancelNil.Load() > 0 && js.runNil.Load() > 0 {
+				c.Violate("dropped:periodic-cancel-inside-run", "a run-now request reported success for a periodic job that had been cancelled before the request claimed it; the run never happened", id, detail)
+			}
+			c.Count("periodic_cancel_inside_run_cases", 1)
+			c.Distinct(fmt.Sprintf("pcir|run:%v|cancel:%v", js.runNil.Load() > 0, js.cancelNil.Load() > 0))
+		})
+	}
+}
+
 // ---- linearizability of the job table ----
 
 type tblIn struct {
@@ -667,6 +723,7 @@ func run(c *harness.Ctx) {
 	s := newSched()
 	oneOff(c, s)
 	periodic(c, s)
+	periodicCancelInsideRun(c, s)
 	tableLin(c, s)
 	// Nothing must be left in the table.
 	if left := s.ListJobs(context.Background()); len(left) > 0 {
